@@ -211,6 +211,7 @@ class GenerateAddressSpaceBounds(Contract):
 
 @contract
 class GenerateSensitiveHosts(Contract):
+    may_draw = True
     qualname = GQ + "_generate_sensitive_hosts"
     callable_by_contract = False
     bounded = False
@@ -281,6 +282,7 @@ class ActionProbsLoop(LoopContract):
 
 @contract
 class GetActionProbs(Contract):
+    may_draw = True
     qualname = GQ + "_get_action_probs"
     callable_by_contract = False
     bounded = False
